@@ -48,6 +48,9 @@ def scope_entry(ctx, rule):
     muts = []
     push_node = g.nodes[path[-1][0]]
     push_call = [c for c in calls_of_node(push_node) if prog.resolve_call(f, c) == ENTER][0]
+    if len(push_call.args) != 1 or push_call.keywords:
+      raise AnalysisError('config_scope calls the scope push as `%s`: the push protocol (one argument: the complete new scope) changed, '
+                          'so the three entry forms cannot be read off config_scope alone' % u(push_call))
     if not push_call.args or not isinstance(push_call.args[0], ast.Name):
       ctx.fail(rule, con, 'the scope push does not push a plain local list', f.loc(push_node.ast))
       return
